@@ -5,7 +5,8 @@ CONSTANTS
  V = {1,2}
  MaxOps = 4
  KeepHist = TRUE
- SetMode = FALSE
+ MapOps = TRUE
+ SetOps = FALSE
 VIEW View
 ACTION_CONSTRAINT Emit
 INVARIANTS TypeOK NoOrphan SomeLive SetValues
